@@ -8,7 +8,7 @@ apply_mutation(widget, op) performs it.
 
 from __future__ import annotations
 
-WORDS = ["alpha", "be", "gamma delta", "x", "lorem ipsum dolor", "漢字 kanji", "né", "a\nb", "", "0123456789012345678901234567"]
+WORDS = ["alpha", "be", "gamma delta", "x", "lorem ipsum dolor", "漢字 kanji", "né", "a\nb", "", "0123456789012345678901234567", "\n".join(f"line {i}" for i in range(12))]
 ATTRS = [None, "a", "b", "hi"]
 ALIGN = ["left", "center", "right"]
 WRAP = ["space", "any", "clip", "ellipsis"]
@@ -43,8 +43,10 @@ def gen_flow_leaf(rng):
         return {"t": "Divider", "ch": rng.choice([" ", "-", "─"])}
     if r < 0.93:
         return {"t": "SelectableIcon", "text": rng.choice(["*", "icon", "[x]"]), "cpos": rng.choice([0, 1])}
-    if r < 0.97:
+    if r < 0.95:
         return {"t": "IntEdit", "caption": "n=", "val": rng.choice([0, 7, 123])}
+    if r < 0.98:
+        return {"t": "Expander", "title": rng.choice(["item", "more"]), "details": rng.choice([["d1"], ["d1", "d2"], []])}
     return {"t": "NoCacheText", "text": text_of(rng)}
 
 
@@ -69,6 +71,47 @@ def layout_object(kind):
 
         _LAYOUTS["mirror"] = MirrorLayout
     return _LAYOUTS["mirror"]()
+
+
+def expander_class():
+    """a user flow widget that shows its detail lines only while it has the focus (rows() depends on focus)"""
+    import urwid
+
+    if "exp" not in _NOCACHE:
+
+        class Expander(urwid.Widget):
+            _sizing = frozenset([urwid.FLOW])
+            _selectable = True
+
+            def __init__(self, title, details):
+                super().__init__()
+                self.title = title
+                self.details = list(details)
+
+            def _lines(self, focus):
+                return [self.title, *self.details] if focus else [self.title]
+
+            def rows(self, size, focus=False):
+                return len(self._lines(focus))
+
+            def render(self, size, focus=False):
+                (maxcol,) = size
+                lines = [line.encode("ascii", "replace")[:maxcol].ljust(maxcol) for line in self._lines(focus)]
+                return urwid.TextCanvas(lines, maxcol=maxcol)
+
+            def keypress(self, size, key):
+                return key
+
+            def set_details(self, details):
+                self.details = list(details)
+                self._invalidate()
+
+            def set_title(self, title):
+                self.title = title
+                self._invalidate()
+
+        _NOCACHE["exp"] = Expander
+    return _NOCACHE["exp"]
 
 
 def nocache_text_class():
@@ -96,6 +139,8 @@ def gen_flow(rng, depth):
         for _ in range(rng.randint(1, 4)):
             if rng.random() < 0.15:
                 items.append(["given", rng.randint(1, 3), gen_box(rng, d)])
+            elif rng.random() < 0.08:
+                items.append(["pack", None, {"t": "Pile", "items": [], "focus": 0}])  # empty: 0 rows
             else:
                 items.append(["pack", None, gen_flow(rng, d)])
         return {"t": "Pile", "items": items, "focus": rng.randrange(len(items))}
@@ -199,6 +244,8 @@ def build(r):
         return urwid.Text(r["text"], align=r["align"], wrap=r["wrap"])
     if t == "NoCacheText":
         return nocache_text_class()(r["text"])
+    if t == "Expander":
+        return expander_class()(r["title"], r["details"])
     if t == "Edit":
         w = urwid.Edit(r["caption"], r["text"], multiline=r["multiline"], align=r["align"], wrap=r["wrap"])
         if r.get("pos") is not None:
@@ -350,6 +397,8 @@ def propose(rng, w):
         ]
     elif isinstance(w, urwid.IntEdit):
         c += [["keypress", rng.choice(["1", "9", "backspace", "left"])], ["set_edit_text", str(rng.randint(0, 9999))]]
+    elif type(w).__name__ == "Expander":
+        c += [["set_details", rng.choice([[], ["d1"], ["d1", "d2", "d3"]])], ["set_title", rng.choice(["t", "title"])]]
     elif isinstance(w, urwid.SelectableIcon):
         c += [["set_text", rng.choice(["*", "ic", "[ ]"])]]
     elif isinstance(w, urwid.Text):
@@ -392,6 +441,11 @@ def propose(rng, w):
             c += [["focus_position", rng.randrange(n)], ["contents_set", rng.randrange(n)], ["child_mutation", rng.randrange(n)]]
         if n > 1:
             c += [["contents_del", rng.randrange(n)], ["contents_swap", rng.randrange(n), rng.randrange(n)]]
+        if n == 1 and not isinstance(w, urwid.Columns):
+            # down to an empty Pile / GridFlow (0 rows: the parent does not render it at all)
+            c += [["contents_del", 0], ["contents_clear"]]
+        elif n and not isinstance(w, urwid.Columns):
+            c += [["contents_clear"]]
         if isinstance(w, urwid.GridFlow):
             c += [["set_cell_width", rng.randint(3, 9)]]
             if n:
@@ -435,7 +489,7 @@ def apply_mutation(w, op, size):
 
     name = op[0]
     a = op[1:]
-    if name in ("set_edit_text", "set_edit_pos", "set_caption", "insert_text", "set_text", "set_align_mode", "set_wrap_mode", "set_state", "set_label", "set_completion", "set_title", "set_scrollpos"):
+    if name in ("set_edit_text", "set_edit_pos", "set_caption", "insert_text", "set_text", "set_align_mode", "set_wrap_mode", "set_state", "set_label", "set_completion", "set_title", "set_scrollpos", "set_details"):
         getattr(w, name)(a[0])
     elif name == "set_layout":
         align = w.align if a[0] == "same" else a[0]
@@ -512,6 +566,8 @@ def apply_mutation(w, op, size):
             w.contents[a[0]] = item
     elif name == "contents_del":
         del w.contents[a[0]]
+    elif name == "contents_clear":
+        del w.contents[:]
     elif name == "contents_swap":
         i, j = a
         ci, cj = w.contents[i], w.contents[j]
